@@ -182,7 +182,7 @@ def scenarios_from(ctx, cfg):
     return r.records
 
 
-def concretize(bench, scen, rng, idbase, hostile_variant=None, cli_share=0.5):
+def concretize(bench, scen, rng, idbase, hostile_variant=None, cli_share=0.5, big=True):
     """one Vmd.tla scenario -> list of concrete clients for vmd_clients.play (unique module per client)"""
     n = len(scen["kinds"])
     order = scen.get("order") or list(range(1, n + 1))
@@ -192,10 +192,10 @@ def concretize(bench, scen, rng, idbase, hostile_variant=None, cli_share=0.5):
         ident = idbase + c
         cl = dict(id=ident, kind=kind, c=c + 1, allowed=scen["allowed"][c], abstract=am)
         if kind in ("exec",):
-            m = bench.module(rng.choice(SHAPES[am]), ident)
+            m = bench.module(rng.choice([t for t in SHAPES[am] if big or t != BIG]), ident)
             cl.update(via="cli" if rng.random() < cli_share else "raw")
         elif kind in ("disc_before", "disc_mid", "disc_after"):
-            m = bench.module(BIG if kind != "disc_after" or rng.random() < 0.5 else "many", ident)
+            m = bench.module(BIG if big and (kind != "disc_after" or rng.random() < 0.5) else "many", ident)
             cl.update(via="raw", expect_out_len=len(m["std"]["stdout"]))
         elif kind == "hostile":
             m = bench.hostile(hostile_variant or rng.choice(V.HOSTILE_VARIANTS), ident)
